@@ -3,7 +3,7 @@
    calendar algorithms, transcribed); Model/DayTime.v (binary64, hand-written). *)
 From Coq Require Import ZArith List.
 From PV Require Import Lib.Py Lib.PyDate Proofs.C17Cal Proofs.C17Base Proofs.C17 Model.DayTime.
-From PV Require Import Proofs.C17Carry.
+From PV Require Import Proofs.C17Carry Proofs.C17Months.
 From PV Require Proofs.C17Sweep.All.
 From PV Require Gen.date_time.
 Import ListNotations.
@@ -83,3 +83,49 @@ Theorem C17_ord2ymd_inverse : forall y m d, 1 <= m <= 12 -> 1 <= d <= days_in_mo
   61 <= ymd2ord y m d - 693594 <= 2958465 -> ord2ymd (ymd2ord y m d) = (y, m, d).
 Proof. exact ord2ymd_inv. Qed.
 Print Assumptions C17_ord2ymd_inverse.
+
+(* EOMONTH.  n a serial day after the phantom leap day, (y, m, d) its date, k ANY
+   integer shift; the target month (y2, m2) = k months after (y, m) lies in
+   1900-03 .. 9999-11 (for 9999-12 the model answers #NUM!, known finding
+   C17-eomonth-last-month: Refuted/C17_eomonth_last_month.v).  Then EOMONTH(n, k)
+   is the serial number of the last day of (y2, m2): its YEAR/MONTH are y2/m2, its
+   DAY is the length of that month and the next serial day has DAY = 1. *)
+Theorem C17_eomonth : forall n k y m d, 60 < n <= 2958465 -> ord2ymd (693594 + n) = (y, m, d) ->
+  let y2 := nyear y (m + k) in let m2 := nmonth (m + k) in
+  1900 <= y2 <= 9999 -> (y2 = 1900 -> 3 <= m2) -> (y2 = 9999 -> m2 <= 11) ->
+  exists e, date_time.f_eomonth (VInt n) (VInt k) = Ok (VInt e)
+    /\ e = ymd2ord y2 m2 (days_in_month y2 m2) - 693594 /\ 60 < e < 2958465
+    /\ date_time.f_year (VInt e) = Ok (VInt y2) /\ date_time.f_month (VInt e) = Ok (VInt m2)
+    /\ date_time.f_day (VInt e) = Ok (VInt (days_in_month y2 m2))
+    /\ date_time.f_day (VInt (e + 1)) = Ok (VInt 1).
+Proof. exact eomonth_spec. Qed.
+Print Assumptions C17_eomonth.
+
+(* EDATE shifts by whole months and clips the day to the length of the target
+   month (target month in 1900-03 .. 9999-12, any integer shift k) *)
+Theorem C17_edate : forall n k y m d, 60 < n <= 2958465 -> ord2ymd (693594 + n) = (y, m, d) ->
+  let y2 := nyear y (m + k) in let m2 := nmonth (m + k) in
+  1900 <= y2 <= 9999 -> (y2 = 1900 -> 3 <= m2) ->
+  let dd := Z.min d (days_in_month y2 m2) in
+  exists e, date_time.f_edate (VInt n) (VInt k) = Ok (VInt e)
+    /\ e = ymd2ord y2 m2 dd - 693594 /\ 60 < e <= 2958465
+    /\ date_time.f_year (VInt e) = Ok (VInt y2) /\ date_time.f_month (VInt e) = Ok (VInt m2)
+    /\ date_time.f_day (VInt e) = Ok (VInt dd).
+Proof. exact edate_spec. Qed.
+Print Assumptions C17_edate.
+
+Theorem C17_edate_zero : forall n, 60 < n <= 2958465 ->
+  date_time.f_edate (VInt n) (VInt 0) = Ok (VInt n).
+Proof. exact edate_zero. Qed.
+Print Assumptions C17_edate_zero.
+
+(* EDATE(EDATE(n, a), b) = EDATE(n, a + b) when the day is never clipped (DAY(n) <= 28) *)
+Theorem C17_edate_compose : forall n a b y m d, 60 < n <= 2958465 ->
+  ord2ymd (693594 + n) = (y, m, d) -> d <= 28 ->
+  1900 <= nyear y (m + a) <= 9999 -> (nyear y (m + a) = 1900 -> 3 <= nmonth (m + a)) ->
+  1900 <= nyear y (m + a + b) <= 9999 -> (nyear y (m + a + b) = 1900 -> 3 <= nmonth (m + a + b)) ->
+  exists n1 n2, date_time.f_edate (VInt n) (VInt a) = Ok (VInt n1)
+    /\ date_time.f_edate (VInt n1) (VInt b) = Ok (VInt n2)
+    /\ date_time.f_edate (VInt n) (VInt (a + b)) = Ok (VInt n2).
+Proof. exact edate_compose. Qed.
+Print Assumptions C17_edate_compose.
